@@ -266,7 +266,14 @@ func init() {
 		db := st.alloc(MapV{kv})
 		return TupleV{Ptr{Obj: db}, IfaceV{}}, true
 	}
+	closedKey := func(v Value) string { return "badger-closed:" + mkey(v) }
 	txnCall := func(e *Engine, st *State, fn *ssa.Function, args []Value, retTo *ssa.Call) (Value, bool) {
+		// a store fault the harness can provoke: transactions on a closed DB fail with badger.ErrDBClosed
+		if getM(st, closedKey(args[0])) != 0 {
+			p := e.prog.ImportedPackage("github.com/dgraph-io/badger/v3")
+			e.modelsUsed["badger: transactions on a closed DB return ErrDBClosed"] = true
+			return st.load(Ptr{Obj: e.globalObj(st, p.Var("ErrDBClosed"))}), true
+		}
 		// DB.Update(fn) / DB.View(fn): txn is the db pointer itself
 		e.callClosure(st, args[1], []Value{args[0]}, func(st *State, res Value) {
 			if retTo != nil {
@@ -278,6 +285,7 @@ func init() {
 	exact["(*"+bp+"DB).Update"] = txnCall
 	exact["(*"+bp+"DB).View"] = txnCall
 	exact["(*"+bp+"DB).Close"] = func(e *Engine, st *State, fn *ssa.Function, args []Value, retTo *ssa.Call) (Value, bool) {
+		setM(st, closedKey(args[0]), 1)
 		return IfaceV{}, true
 	}
 	exact["(*"+bp+"Txn).Set"] = func(e *Engine, st *State, fn *ssa.Function, args []Value, retTo *ssa.Call) (Value, bool) {
